@@ -37,6 +37,10 @@ type Rule struct {
 	Target   int      `json:"target"`
 	Explicit bool     `json:"explicit"` // pass WithPrivilegeLevel(target) (config/interactive)
 	Lines    []string `json:"lines,omitempty"`
+	// Leave (config/configs): the batch ends with the level's own de-escalation command (as in a
+	// config batch ending with "end"), so the operation leaves the device at the parent level
+	// although the level it acquired was the configuration level.
+	Leave bool `json:"leave,omitempty"`
 }
 
 // Case is a tree plus a history.
@@ -215,6 +219,10 @@ func gen(t *rapid.T) Case {
 
 		if r.K == "config" || r.K == "configs" || r.K == "interactive" {
 			r.Explicit = rapid.Bool().Draw(t, "explicit")
+		}
+
+		if r.K == "config" || r.K == "configs" {
+			r.Leave = rapid.IntRange(0, 2).Draw(t, "leave") == 0
 		}
 
 		c.Rules = append(c.Rules, r)
@@ -454,16 +462,28 @@ func run(c Case) ev.Verdict {
 				at = r.Target
 			}
 
+			lines := r.Lines
+
 			if at < 0 {
 				wantErr = util.ErrPrivilegeError
 			} else {
 				payload(at)
+
+				// (not when the level is also the default desired one: send-command documents that
+				// it trusts the cached level, a user leaving that level by hand is on their own)
+				if r.Leave && at > 0 && at != c.Default {
+					lines = append(append([]string(nil), lines...), c.Levels[at].Deescalate)
+					want = append(want, logged{at, c.Levels[at].Deescalate})
+					endMode = c.Levels[at].Parent
+					v.NonTrivial = true
+					v.Classes = append(v.Classes, "batch-leaves-its-level")
+				}
 			}
 
 			if r.K == "config" {
-				_, opErr = d.SendConfig(r.Lines[0], lvlOpt()...)
+				_, opErr = d.SendConfig(strings.Join(lines, "\n"), lvlOpt()...)
 			} else {
-				_, opErr = d.SendConfigs(r.Lines, lvlOpt()...)
+				_, opErr = d.SendConfigs(lines, lvlOpt()...)
 			}
 		case "interactive":
 			at := c.Default
